@@ -224,7 +224,7 @@ theorem invoke_body (c : List Level) (run : Env → List Node → Res) (j : Nat)
     (hs : lv.sig = []) :
     invoke c run (.member j j) bodyName [] [] = run { tmpl := j, ctx := j, bound := [], pageargs := some [] } lv.nodes := by
   have hm : lv.member bodyName = some (MKind.body, [], lv.nodes) := by simp [Level.member, hs]
-  simp only [invoke, hj, Option.bind_some, hm]
+  simp only [invoke, hj, Option.bind_some, hm, finishCall_eq]
   rfl
 
 theorem step_nextbody_rule (c : List Level) (i : Nat) (hi : i < c.length) (hi0 : i ≠ 0)
@@ -308,7 +308,7 @@ theorem exec_plain (c : List Level) (hp : PlainChain c) :
                 have hmem : c[l].member b = some (MKind.block, [], kids') := by
                   simp [Level.member, hb1.2, hnt, hfb]
                 have htx := findBlockL_plain b _ _ _ hplv.1 hfb
-                simp only [invoke, hcl, Option.bind_some, hmem] at hx
+                simp only [invoke, hcl, Option.bind_some, hmem, finishCall_eq] at hx
                 have hbind : bind [] true [] [] = some ([], []) := bind_empty
                 simp only [show (MKind.block != MKind.defn) = true from rfl, hbind] at hx
                 have := exec_texts c _ f _ kids' x htx hx
